@@ -42,6 +42,14 @@ type decideSpec struct {
 	// element type of the lists search loops run over (default String)
 	elemType string
 	okWrap string            // how `return v, nil` is written: "pure" etc.
+	// plain: the function has no error result; `return e` is the value e
+	plain bool
+	// callee of a two-valued `a, b := f(…)` that cannot fail -> Lean function returning a pair
+	pairs map[string]string
+	// arithmetic operator -> Lean function of two arguments (the element type stays abstract)
+	binops map[string]string
+	// callee of a pure call inside an expression -> Lean function ("[from:]" is the slice expression x[lo:])
+	funcs map[string]string
 }
 
 type decideTr struct {
@@ -107,6 +115,26 @@ func (t *decideTr) expr(e ast.Expr) (string, error) {
 		if x.Kind == token.INT {
 			return x.Value, nil
 		}
+	case *ast.CallExpr:
+		if fn, ok := t.spec.funcs[t.text(x.Fun)]; ok {
+			as, err := t.args(x.Args)
+			if err != nil {
+				return "", err
+			}
+			return "(" + fn + " " + strings.Join(as, " ") + ")", nil
+		}
+	case *ast.SliceExpr:
+		if fn, ok := t.spec.funcs["[from:]"]; ok && x.Low != nil && x.High == nil && !x.Slice3 {
+			a, err := t.expr(x.X)
+			if err != nil {
+				return "", err
+			}
+			lo, err := t.expr(x.Low)
+			if err != nil {
+				return "", err
+			}
+			return "(" + fn + " " + a + " " + lo + ")", nil
+		}
 	case *ast.UnaryExpr:
 		if x.Op == token.NOT {
 			a, err := t.expr(x.X)
@@ -123,6 +151,9 @@ func (t *decideTr) expr(e ast.Expr) (string, error) {
 		b, err := t.expr(x.Y)
 		if err != nil {
 			return "", err
+		}
+		if fn, ok := t.spec.binops[x.Op.String()]; ok {
+			return "(" + fn + " " + a + " " + b + ")", nil
 		}
 		switch x.Op {
 		case token.EQL:
@@ -207,6 +238,20 @@ func (t *decideTr) ret(r *ast.ReturnStmt) (string, error) {
 	n := len(r.Results)
 	if n == 0 {
 		return "", fmt.Errorf("bare return")
+	}
+	if t.spec.plain {
+		var vs []string
+		for _, v := range r.Results {
+			s, err := t.expr(v)
+			if err != nil {
+				return "", err
+			}
+			vs = append(vs, s)
+		}
+		if len(vs) == 1 {
+			return vs[0], nil
+		}
+		return "(" + strings.Join(vs, ", ") + ")", nil
 	}
 	last := r.Results[n-1]
 	lt := t.text(last)
@@ -311,6 +356,35 @@ func (t *decideTr) stmts(ss []ast.Stmt, fall string) (string, error) {
 				}
 			}
 		}
+		// a, b := f(args…) for a two-valued f that cannot fail (utf8.DecodeRuneInString)
+		if len(x.Lhs) == 2 && len(x.Rhs) == 1 && x.Tok == token.DEFINE {
+			if call, ok := x.Rhs[0].(*ast.CallExpr); ok {
+				if fn, known := t.spec.pairs[t.text(call.Fun)]; known {
+					args, err := t.args(call.Args)
+					if err != nil {
+						return "", err
+					}
+					var names []string
+					for _, l := range x.Lhs {
+						id, ok := l.(*ast.Ident)
+						if !ok {
+							return "", fmt.Errorf("pair definition of a non-identifier: %s", t.text(x))
+						}
+						if id.Name == "_" {
+							names = append(names, "_")
+						} else {
+							t.bound[id.Name] = true
+							names = append(names, leanIdent(id.Name))
+						}
+					}
+					cont, err := t.stmts(rest, fall)
+					if err != nil {
+						return "", err
+					}
+					return fmt.Sprintf("(match %s %s with\n  | (%s) => %s)", fn, strings.Join(args, " "), strings.Join(names, ", "), cont), nil
+				}
+			}
+		}
 		// msg := "literal"
 		if len(x.Lhs) == 1 && len(x.Rhs) == 1 && x.Tok == token.DEFINE {
 			if v, ok := x.Lhs[0].(*ast.Ident); ok {
@@ -395,7 +469,52 @@ func (t *decideTr) stmts(ss []ast.Stmt, fall string) (string, error) {
 			return "", err
 		}
 		return fmt.Sprintf("(if %s then %s\n  else %s)", cond, thn, els), nil
+	case *ast.DeclStmt:
+		// var acc T = <expression>
+		if gd, ok := x.Decl.(*ast.GenDecl); ok && gd.Tok == token.VAR && len(gd.Specs) == 1 {
+			if vs, ok := gd.Specs[0].(*ast.ValueSpec); ok && len(vs.Names) == 1 && len(vs.Values) == 1 {
+				rhs, err := t.expr(vs.Values[0])
+				if err != nil {
+					return "", err
+				}
+				t.bound[vs.Names[0].Name] = true
+				cont, err := t.stmts(rest, fall)
+				if err != nil {
+					return "", err
+				}
+				return fmt.Sprintf("(let %s := %s\n  %s)", leanIdent(vs.Names[0].Name), rhs, cont), nil
+			}
+		}
 	case *ast.RangeStmt:
+		// for _, i := range <atom list> { acc op= i }  – an accumulating loop: a left fold over the list
+		if coll, ok := t.spec.atoms[t.text(x.X)]; ok && !hasReturn(x.Body.List) && x.Key != nil && t.text(x.Key) == "_" {
+			if v, okv := x.Value.(*ast.Ident); okv && len(x.Body.List) == 1 {
+				if as, ok := x.Body.List[0].(*ast.AssignStmt); ok && len(as.Lhs) == 1 && len(as.Rhs) == 1 {
+					if acc, ok := as.Lhs[0].(*ast.Ident); ok && t.bound[acc.Name] {
+						t.bound[v.Name] = true
+						var step string
+						var err error
+						if as.Tok == token.ASSIGN {
+							step, err = t.expr(as.Rhs[0])
+						} else if fn, ok := t.spec.binops[strings.TrimSuffix(as.Tok.String(), "=")]; ok {
+							var r string
+							r, err = t.expr(as.Rhs[0])
+							step = "(" + fn + " " + leanIdent(acc.Name) + " " + r + ")"
+						} else {
+							err = fmt.Errorf("assignment operator %s has no declared meaning", as.Tok)
+						}
+						if err != nil {
+							return "", err
+						}
+						cont, err := t.stmts(rest, fall)
+						if err != nil {
+							return "", err
+						}
+						return fmt.Sprintf("(let %s := List.foldl (fun %s %s => %s) %s (%s)\n  %s)", leanIdent(acc.Name), leanIdent(acc.Name), leanIdent(v.Name), step, leanIdent(acc.Name), coll, cont), nil
+					}
+				}
+			}
+		}
 		// for _, r := range <atom list> { … return … }  – a search loop: the first element that decides
 		coll, ok := t.spec.atoms[t.text(x.X)]
 		v, okv := x.Value.(*ast.Ident)
